@@ -61,6 +61,8 @@ def run(ctx):
     prog = ctx.prog
     check_enum_tables(ctx, prog)
     f = prog.method("energy::indicators::qsoljul::QSolJulData", None, "from")
+    from ..loops import check_no_early_exit
+    check_no_early_exit(ctx, "c10.loop", prog, f, "q_sol;jul")
     root = Scope(prog, f)
     bt = [v["name"] for v in prog.adt("bemodel::types::common::BoundaryType")["variants"]]
     filt = [ch for (b, t, ch) in root.children() if ch.via[0] == "filter" and (ch.via[1].source_name() or "").endswith("props.windows")]
@@ -152,6 +154,8 @@ def run(ctx):
     # D1/D2 inheritance in EnergyProps::from
     ep = prog.method("energy::props::EnergyProps", "convert::From", "from")
     esc = Scope(prog, ep)
+    from .c08 import check_override_passthrough
+    check_override_passthrough(ctx, "c10.chain", prog, ep, "WinProps", "f_shobst_override", "windows", "f_shobst")
     # the `is_tenv` this indicator filters on is the envelope membership of the statement (the truth table C11 decides, evaluated here too)
     from .c11 import check_envelope_membership
     check_envelope_membership(ctx, prog, ep, esc, rule="c10.scope")
